@@ -59,6 +59,9 @@ def evaluate(sid, tier, in_repo):
             res["mode"] = "applied to /repo" + ("" if a.returncode == 0 else " (apply failed)")
         else:
             env = dict(os.environ, FUNC_ADL_SRC=wt)
+            if not meta.get("needs_process_env") and not sid.startswith("s15-"):
+                # the process-environment slices matter only to the seeds of round 15
+                env["VERIF_NO_SLICES"] = "1"
             p = sh([PY, script, "--tier", tier, "--no-evidence"], cwd=ROOT, env=env, timeout=3600)
             res["mode"] = "scratch worktree via FUNC_ADL_SRC"
         res["check_tier"] = tier
